@@ -61,7 +61,10 @@ class PestGrammarError(Exception):
                 break
 
         if target_line_index == -1:
-            raise ValueError("index is out of bounds for the given string")
+            # At the end of the text: the last line, or an empty one.
+            lines = lines or [""]
+            target_line_index = len(lines) - 1
+            cumulative_length = sum(len(line) for line in lines)
 
         # Line number (1-based)
         line_number = target_line_index + 1
